@@ -12,7 +12,7 @@ use std::sync::{Arc, Mutex};
 use poulpy_ckks::CKKSInfos;
 use poulpy_ckks::CKKSMeta;
 use poulpy_ckks::encoding::Encoder;
-use poulpy_ckks::layouts::{CKKSCiphertext, CKKSPlaintextConversion, CKKSPlaintextVecRnx, CKKSPlaintextVecZnx};
+use poulpy_ckks::layouts::{CKKSPlaintextConversion, CKKSPlaintextVecRnx, CKKSPlaintextVecZnx};
 use poulpy_core::ScratchTakeCore;
 use poulpy_core::layouts::LWEInfos;
 use poulpy_hal::api::ScratchAvailable;
@@ -1271,7 +1271,9 @@ pub fn run(run: &mut Run) {
     run.assume("values are compared only while |slot| + error < 2^(log_budget-2) (representable range of the ciphertext); beyond that the register keeps being used for the metadata / no-panic / error-value invariants only");
     run.assume("constants for add/sub_pt_const_znx are encoded with to_znx_at_k at k = destination log_budget + log_delta, as the API documentation requires; constants for mul use to_znx");
     run.assume("destination limb counts stay <= dnum of the evaluation keys; rotation index k is looked up in the key map by k itself (keys supplied for k in {1,2,5})");
-    run.assume("tolerance = accumulated worst-case bound: fresh encryption N*(0.5+20)*2^-ld, each result truncation N*(N+1)*2^(lb-max_k), each key switch N^2*dnum*2^(b-1)*20*2^(lb-k_key), products |a|E_b+|b|E_a+E_aE_b, plaintext quantisation N/2*2^-ld_pt; all fresh terms times 4");
+    run.assume("tolerance = accumulated worst-case bound (slot domain): fresh encryption N*(0.5+20)*2^-ld, each result truncation N*(N+1)*2^(lb-max_k), each key switch N^2*dnum*2^(b-1)*20*2^(lb-k_key), products |a|E_b+|b|E_a+E_aE_b where a ciphertext operand's error includes N*(N+1)*2^-ld (products consume operands down to their effective precision only), plaintext quantisation N/2*2^-ld_pt; all fresh terms times 4; observed error/tolerance maxima are reported per operation");
+    run.assume("observation: ckks_decrypt into a plaintext of (log_delta = finest the element type admits, log_budget = what the shadow magnitude needs), decode_from_znx, decode_reim; the position of the value depends on the ciphertext's log_budget only, so a budget or scale off by one bit is a factor-2 value error");
+    run.assume("state key = depth + sorted per-register (blank, value-defined, log_delta, log_budget, size, max_size, base2k): registers are interchangeable, every branch of poulpy-ckks depends on these integers only; the first state reaching a key in (parent index, action index) order represents it; the last layer is checked but not expanded");
     // ---- encode/decode identity
     run.family(
         "encode_decode",
@@ -1308,7 +1310,7 @@ pub fn run(run: &mut Run) {
     run.note("search_summary", json!(summary));
     let w: BTreeMap<String, f64> = worst.into_inner().unwrap();
     run.note("worst_error_over_tolerance_per_op", json!(w));
-    run.note("ring", json!({"n": 16, "slots": 8, "note": "smallest ring on which all menu operations are defined on both backend families"}));
+    run.note("ring", json!({"n": 16, "slots": 8, "note": "N=16 (8 slots) is admitted by the encoder and by both backend families; used for every search"}));
 }
 
 fn replay_on<B: Cb, F: Real>(run: &mut Run, cfg: &SearchCfg, init: usize, trace: &[Action])
@@ -1376,5 +1378,3 @@ pub fn replay(run: &mut Run, d: &Value) {
     }
 }
 
-#[allow(dead_code)]
-fn _unused(_: &CKKSCiphertext<Vec<u8>>) {}
